@@ -351,3 +351,81 @@ Definition w_object (c : wcfg) (draw : oracle) (rank : nat) (ops : list op) : li
   run_ops w_set_epoch (fun c' => w_run c' draw rank) c ops.
 Definition cb_object (c : cbcfg) (draw : oracle) (rank : nat) (ops : list op) : list run :=
   run_ops cb_set_epoch (fun c' => cb_run c' draw rank) c ops.
+
+(* ------------------------------------------------------------------ *)
+(* the DEFAULT rank / world size: kappadata/utils/distributed.py and   *)
+(* the `rank=None, world_size=None` arguments of the constructors      *)
+(* ------------------------------------------------------------------ *)
+(* what torch.distributed shows to the process at one moment *)
+Record pgroup := {
+  pg_available : bool;                  (* dist.is_available() *)
+  pg_joined : option (nat * nat) }.     (* dist.is_initialized() and (dist.get_rank(), dist.get_world_size()) of the
+                                           default group *)
+
+(* is_distributed / get_rank / get_world_size of kappadata/utils/distributed.py: plain functions of the CURRENT state
+   of torch.distributed - nothing is remembered between calls *)
+Definition is_distributed (g : pgroup) : bool :=
+  pg_available g && match pg_joined g with Some _ => true | None => false end.
+Definition get_rank (g : pgroup) : nat :=
+  if is_distributed g then match pg_joined g with Some (r, _) => r | None => 0 end else 0.
+Definition get_world_size (g : pgroup) : nat :=
+  if is_distributed g then match pg_joined g with Some (_, w) => w | None => 1 end else 1.
+
+(* ClassBalancedSampler / WeightedSampler / SemiSampler / SamplerBase constructors (repaired):
+     self.rank = get_rank() if rank is None else rank
+     self.world_size = get_world_size() if world_size is None else world_size *)
+Definition resolve_rank_world (rank world : option nat) (g : pgroup) : nat * nat :=
+  (match rank with Some r => r | None => get_rank g end,
+   match world with Some w => w | None => get_world_size g end).
+
+(* torch's DistributedSampler.__init__ (inherited): num_replicas / rank None -> dist.get_world_size() / dist.get_rank()
+   (RuntimeError without the distributed package, ValueError without a default group), then
+   `if rank >= num_replicas or rank < 0: raise ValueError`.  None = the constructor raises. *)
+Definition resolve_torch (rank world : option nat) (g : pgroup) : option (nat * nat) :=
+  let grp := if pg_available g then pg_joined g else None in
+  match (match world with Some w => Some w | None => option_map snd grp end),
+        (match rank with Some r => Some r | None => option_map fst grp end) with
+  | Some w, Some r => if r <? w then Some (r, w) else None
+  | _, _ => None
+  end.
+
+(* what happens in a process before a sampler is constructed *)
+Inductive pg_event :=
+| EvInit (rank world : nat)   (* torch.distributed.init_process_group: joined as rank of world *)
+| EvDestroy                   (* destroy_process_group *)
+| EvAvailable (b : bool)      (* dist.is_available() answers b from now on *)
+| EvQuery.                    (* is_distributed() / get_rank() / get_world_size() called, or a sampler constructed
+                                 (and thrown away, or kept) *)
+
+Definition pg_step (g : pgroup) (ev : pg_event) : pgroup :=
+  match ev with
+  | EvInit r w => {| pg_available := pg_available g; pg_joined := Some (r, w) |}
+  | EvDestroy => {| pg_available := pg_available g; pg_joined := None |}
+  | EvAvailable b => {| pg_available := b; pg_joined := pg_joined g |}
+  | EvQuery => g
+  end.
+Definition pg_after (g : pgroup) (evs : list pg_event) : pgroup := fold_left pg_step evs g.
+(* a process that has just imported the packages *)
+Definition pg_fresh : pgroup := {| pg_available := true; pg_joined := None |}.
+Definition is_query (ev : pg_event) : bool := match ev with EvQuery => true | _ => false end.
+
+Definition d_set_world (c : dcfg) (W : nat) : dcfg :=
+  {| d_n := d_n c; d_W := W; d_shuffle := d_shuffle c; d_seed := d_seed c; d_drop := d_drop c;
+     d_rep := d_rep c; d_epoch := d_epoch c |}.
+Definition w_set_world (c : wcfg) (W : nat) : wcfg :=
+  {| w_n := w_n c; w_size := w_size c; w_seed := w_seed c; w_epoch := w_epoch c; w_W := W |}.
+Definition cb_set_world (c : cbcfg) (W : nat) : cbcfg :=
+  {| cb_classes := cb_classes c; cb_dim := cb_dim c; cb_spc_arg := cb_spc_arg c; cb_shuffle := cb_shuffle c;
+     cb_seed := cb_seed c; cb_epoch := cb_epoch c; cb_W := W |}.
+
+(* S(dataset, ..., rank=rank, world_size=world) constructed while torch.distributed is in state g, then
+   len(sampler) / list(sampler)  (the world size field of c is not used) *)
+Definition w_built (c : wcfg) (rank world : option nat) (g : pgroup) (draw : oracle) : run :=
+  let '(r, W) := resolve_rank_world rank world g in w_run (w_set_world c W) draw r.
+Definition cb_built (c : cbcfg) (rank world : option nat) (g : pgroup) (draw : oracle) : run :=
+  let '(r, W) := resolve_rank_world rank world g in cb_run (cb_set_world c W) draw r.
+Definition dist_built (c : dcfg) (rank world : option nat) (g : pgroup) (draw : oracle) : option run :=
+  match resolve_torch rank world g with
+  | Some (r, W) => Some (dist_run (d_set_world c W) draw r)
+  | None => None
+  end.
